@@ -231,6 +231,566 @@ pub broadcast proof fn lemma_singleton_set(s: Env, v: int)
 }
 pub broadcast group set_lemmas { lemma_singleton_set }
 
+// ---------- canonicity (C01/C03): equal families <=> identical zero-suppressed ordered diagrams <=> equal handles ----------
+/// every well-formed diagram other than ∅ has a member (this is what the zero-suppression rule buys)
+pub proof fn witness(t: Tree) -> (s: Env)
+    requires wf(t), t != ee(),
+    ensures mem(t, s),
+    decreases t,
+{
+    match t {
+        Tree::Leaf(_) => { let s = |i: int| false; assert(is_empty_set(s)); s }
+        Tree::Inner(l, a, b) => {
+            let w = witness(*a);
+            if w(l as int) { lemma_mem_above_ind(*a, w, l as int); }
+            assert(upd(upd(w, l as int, true), l as int, false) =~= w);
+            upd(w, l as int, true)
+        }
+    }
+}
+//@lemma name=distinguish props=C01
+pub proof fn distinguish(a: Tree, b: Tree) -> (s: Env)
+    requires wf(a), wf(b), a != b,
+    ensures mem(a, s) != mem(b, s),
+    decreases a, b,
+{
+    match (a, b) {
+        (Tree::Leaf(x), Tree::Leaf(y)) => { let s = |i: int| false; assert(is_empty_set(s)); s }
+        (Tree::Inner(l, a1, a0), _) if top(b) > l => {
+            if *a0 != b {
+                let e = distinguish(*a0, b);
+                if e(l as int) { lemma_mem_above_ind(*a0, e, l as int); lemma_mem_above_ind(b, e, l as int); }
+                e
+            } else {
+                let w = witness(*a1);
+                if w(l as int) { lemma_mem_above_ind(*a1, w, l as int); }
+                assert(upd(upd(w, l as int, true), l as int, false) =~= w);
+                assert(upd(w, l as int, true)(l as int));
+                lemma_mem_above_ind(b, upd(w, l as int, true), l as int);
+                upd(w, l as int, true)
+            }
+        }
+        (Tree::Inner(l, a1, a0), Tree::Inner(k, b1, b0)) if k == l => {
+            if *a1 != *b1 {
+                let e = distinguish(*a1, *b1);
+                if e(l as int) { lemma_mem_above_ind(*a1, e, l as int); lemma_mem_above_ind(*b1, e, l as int); }
+                assert(upd(upd(e, l as int, true), l as int, false) =~= e);
+                upd(e, l as int, true)
+            } else {
+                let e = distinguish(*a0, *b0);
+                if e(l as int) { lemma_mem_above_ind(*a0, e, l as int); lemma_mem_above_ind(*b0, e, l as int); }
+                e
+            }
+        }
+        (_, Tree::Inner(k, b1, b0)) => {
+            if a != *b0 {
+                let e = distinguish(a, *b0);
+                if e(k as int) { lemma_mem_above_ind(a, e, k as int); lemma_mem_above_ind(*b0, e, k as int); }
+                e
+            } else {
+                let w = witness(*b1);
+                if w(k as int) { lemma_mem_above_ind(*b1, w, k as int); }
+                assert(upd(upd(w, k as int, true), k as int, false) =~= w);
+                assert(upd(w, k as int, true)(k as int));
+                lemma_mem_above_ind(a, upd(w, k as int, true), k as int);
+                upd(w, k as int, true)
+            }
+        }
+        _ => { assert(false); |i: int| true }
+    }
+}
+/// two well-formed (ordered, zero-suppressed) diagrams denoting the same family are identical
+//@lemma name=canonicity props=C01,C03
+pub proof fn canonicity(a: Tree, b: Tree)
+    requires wf(a), wf(b), forall|s: Env| mem(a, s) == mem(b, s),
+    ensures a == b,
+{
+    if a != b { let s = distinguish(a, b); assert(mem(a, s) == mem(b, s)); }
+}
+/// handle level: under the hash-consing contract, two handles of well-formed diagrams compare equal iff they denote the same
+/// family.  Every operation of this bundle ensures `ok(result)`, so by induction over any history every live handle is
+/// well-formed and this lemma applies to any two of them.
+//@lemma name=handles_equal_iff_same_family props=C01
+pub proof fn handles_equal_iff_same_family<E: Edge>(x: E, y: E)
+    requires edge_ok::<E>(), wf(x.view()), wf(y.view()),
+    ensures x.eq_spec(&y) <==> (forall|s: Env| mem(x.view(), s) == mem(y.view(), s)),
+{
+    if forall|s: Env| mem(x.view(), s) == mem(y.view(), s) { canonicity(x.view(), y.view()); }
+}
+/// the result of an operation is determined by its specification alone (independent of cache content, history, order of evaluation)
+//@lemma name=result_determined_by_spec props=C01,C06
+pub proof fn result_determined_by_spec(r1: Tree, r2: Tree, spec: spec_fn(Env) -> bool)
+    requires wf(r1), wf(r2), forall|s: Env| mem(r1, s) == spec(s), forall|s: Env| mem(r2, s) == spec(s),
+    ensures r1 == r2,
+{
+    canonicity(r1, r2);
+}
+// ---------- family view vs. Boolean view (C09) ----------
+/// the family of a legal diagram and its Boolean function over the `n` variables determine each other:
+/// `s` is a member iff `s` is a set of variables of the manager and, read as an assignment, satisfies the function
+//@lemma name=family_view_is_boolean_view props=C09
+pub proof fn family_view_is_boolean_view(t: Tree, n: int, s: Env)
+    requires ok(t, n),
+    ensures mem(t, s) == (within(s, 0, n) && bsem(t, n, s)), top(t) >= 0,
+{
+    if within(s, 0, n) {
+        assert(set_of(s, n) =~= s) by { assert forall|i: int| #[trigger] set_of(s, n)(i) == s(i) by { if s(i) {} } }
+    } else if mem(t, s) {
+        lemma_mem_within_ind(t, s, 0, n);
+    }
+}
+/// hence also the Boolean view is canonical: same function over the same `n` variables => identical diagram
+//@lemma name=canonicity_boolean_view props=C01,C09
+pub proof fn canonicity_boolean_view(a: Tree, b: Tree, n: int)
+    requires ok(a, n), ok(b, n), forall|env: Env| bsem(a, n, env) == bsem(b, n, env),
+    ensures a == b,
+{
+    assert forall|s: Env| mem(a, s) == mem(b, s) by { family_view_is_boolean_view(a, n, s); family_view_is_boolean_view(b, n, s); }
+    canonicity(a, b);
+}
+/// adding variables (new levels n..n2 are appended below all existing ones) keeps every diagram legal and its family unchanged
+/// (`mem` does not mention `n`); its Boolean function changes exactly as documented: the new variables must be false
+//@lemma name=add_vars_boolean_view props=C09,C16
+pub proof fn add_vars_boolean_view(t: Tree, n: int, n2: int, env: Env)
+    requires ok(t, n), 0 <= n <= n2,
+    ensures ok(t, n2), bsem(t, n2, env) == (bsem(t, n, env) && forall|i: int| n <= i < n2 ==> !#[trigger] env(i)),
+{
+    lemma_below_mono(t, n, n2);
+    if forall|i: int| n <= i < n2 ==> !#[trigger] env(i) {
+        assert(set_of(env, n2) =~= set_of(env, n)) by { assert forall|i: int| #[trigger] set_of(env, n2)(i) == set_of(env, n)(i) by { if env(i) {} } }
+    } else {
+        assert(exists|i: int| n <= i < n2 && #[trigger] env(i));
+        let i = choose|i: int| n <= i < n2 && #[trigger] env(i);
+        if mem(t, set_of(env, n2)) { lemma_mem_within_ind(t, set_of(env, n2), 0, n); assert(set_of(env, n2)(i)); }
+    }
+}
+pub proof fn lemma_below_mono(t: Tree, n: int, n2: int)
+    requires below(t, n), n <= n2,
+    ensures below(t, n2),
+    decreases t,
+{
+    match t { Tree::Leaf(_) => {} Tree::Inner(l, a, b) => { lemma_below_mono(*a, n, n2); lemma_below_mono(*b, n, n2); } }
+}
+/// cofactors (C02, reduced-domain reading): the children of a node are subset1 / subset0 of the node w.r.t. its own variable
+//@lemma name=cofactors_are_subsets props=C02,C09
+pub proof fn cofactors_are_subsets(l: u32, hi: Tree, lo: Tree, n: int)
+    requires ok(mk(l, hi, lo), n),
+    ensures subset1_post(mk(l, hi, lo), l as int, n, hi), subset0_post(mk(l, hi, lo), l as int, n, lo),
+{
+    let t = mk(l, hi, lo);
+    let v = l as int;
+    assert forall|s: Env| #[trigger] mem(hi, s) == (!s(v) && mem(t, upd(s, v, true))) by {
+        assert(upd(s, v, true)(v));
+        assert(upd(upd(s, v, true), v, false) =~= upd(s, v, false));
+        if s(v) { lemma_mem_above_ind(hi, s, v); } else { assert(upd(s, v, false) =~= s); }
+    }
+    assert forall|s: Env| #[trigger] mem(lo, s) == (!s(v) && mem(t, s)) by {
+        if s(v) { lemma_mem_above_ind(lo, s, v); }
+    }
+}
+
+// ---------- restrict (C04, ZBDD reading): cofactor w.r.t. a partial assignment given as a cube ----------
+/// A conjunction of literals over the variables `level..n` as a ZBDD: a node with hi == lo leaves its variable unassigned,
+/// a node with lo == ∅ is a positive literal, and a level WITHOUT a node is a negative literal (zero-suppression).
+pub enum Lit { Neg, Pos, DC }
+pub open spec fn is_cube(c: Tree) -> bool decreases c {
+    match c {
+        Tree::Leaf(b) => b,
+        Tree::Inner(_, a, b) => (*a == *b || *b == Tree::Leaf(false)) && is_cube(*a),
+    }
+}
+pub open spec fn cube_lit(c: Tree, l: int) -> Lit decreases c {
+    match c {
+        Tree::Leaf(_) => Lit::Neg,
+        Tree::Inner(k, a, b) => if l < k as int { Lit::Neg } else if l == k as int { if *a == *b { Lit::DC } else { Lit::Pos } } else { cube_lit(*a, l) },
+    }
+}
+/// the set/assignment `s` with the variables `from..n` overridden by the literals of the cube `c`
+pub open spec fn cenv(c: Tree, from: int, n: int, s: Env) -> Env {
+    |l: int| if l < from || l >= n { s(l) } else { match cube_lit(c, l) { Lit::Neg => false, Lit::Pos => true, Lit::DC => s(l) } }
+}
+/// `r` is the restriction of `f` (a function of the variables `level..n`) by the cube `c`
+pub open spec fn restrict_post(f: Tree, c: Tree, level: int, n: int, r: Tree) -> bool {
+    ok(r, n) && top(r) >= level && forall|s: Env| #[trigger] mem(r, s) == mem(f, cenv(c, level, n, s))
+}
+/// Boolean reading of the whole cube (all n variables)
+pub open spec fn cube_env(c: Tree, env: Env) -> Env {
+    |l: int| match cube_lit(c, l) { Lit::Neg => false, Lit::Pos => true, Lit::DC => env(l) }
+}
+pub broadcast proof fn lemma_is_cube_mk(l: u32, a: Tree, b: Tree)
+    ensures #[trigger] is_cube(mk(l, a, b)) == ((a == b || b == Tree::Leaf(false)) && is_cube(a)) {}
+pub broadcast proof fn lemma_cube_lit_mk(k: u32, a: Tree, b: Tree, l: int)
+    ensures #[trigger] cube_lit(mk(k, a, b), l) == (if l < k as int { Lit::Neg } else if l == k as int { if a == b { Lit::DC } else { Lit::Pos } } else { cube_lit(a, l) }) {}
+pub proof fn lemma_cube_lit_above(c: Tree, l: int)
+    requires l < top(c),
+    ensures cube_lit(c, l) == Lit::Neg,
+{}
+/// negative literal at `level` (the cube has no node there): descend with the variable forced to false
+pub broadcast proof fn lemma_cenv_neg(c: Tree, level: int, n: int, s: Env)
+    requires level < top(c), level < n,
+    ensures #[trigger] cenv(c, level, n, s) == cenv(c, level + 1, n, upd(s, level, false)), !cenv(c, level, n, s)(level),
+{
+    lemma_cube_lit_above(c, level);
+    assert(cenv(c, level, n, s) =~= cenv(c, level + 1, n, upd(s, level, false)));
+}
+/// node at `level`: below it the cube is its hi-child
+pub broadcast proof fn lemma_cenv_node(k: u32, a: Tree, b: Tree, n: int, s: Env)
+    requires wf(mk(k, a, b)), (k as int) < n,
+    ensures
+        upd(#[trigger] cenv(mk(k, a, b), k as int, n, s), k as int, false) == cenv(a, k as int + 1, n, upd(s, k as int, false)),
+        cenv(mk(k, a, b), k as int, n, s)(k as int) == (if a == b { s(k as int) } else { true }),
+        a == b ==> cenv(mk(k, a, b), k as int, n, s) == cenv(a, k as int + 1, n, s),
+{
+    let c = mk(k, a, b);
+    let l0 = k as int;
+    assert forall|l: int| l > l0 implies cube_lit(c, l) == cube_lit(a, l) by {}
+    assert(upd(cenv(c, l0, n, s), l0, false) =~= cenv(a, l0 + 1, n, upd(s, l0, false)));
+    if a == b { assert(cenv(c, l0, n, s) =~= cenv(a, l0 + 1, n, s)); }
+}
+/// positive literal on a variable the diagram skips: the cofactor is ∅
+pub broadcast proof fn lemma_cenv_pos_above(f: Tree, k: u32, a: Tree, b: Tree, n: int, s: Env)
+    requires wf(f), (k as int) < top(f), (k as int) < n, a != b,
+    ensures !(#[trigger] mem(f, cenv(mk(k, a, b), k as int, n, s))),
+{
+    assert(cenv(mk(k, a, b), k as int, n, s)(k as int));
+    lemma_mem_above_ind(f, cenv(mk(k, a, b), k as int, n, s), k as int);
+}
+/// the whole-cube Boolean reading
+pub broadcast proof fn lemma_cenv_boolean(c: Tree, n: int, env: Env)
+    ensures #[trigger] cenv(c, 0, n, set_of(env, n)) == set_of(cube_env(c, env), n),
+{
+    assert(cenv(c, 0, n, set_of(env, n)) =~= set_of(cube_env(c, env), n));
+}
+pub broadcast group restrict_lemmas { lemma_is_cube_mk, lemma_cube_lit_mk, lemma_cenv_neg, lemma_cenv_node, lemma_cenv_pos_above, lemma_cenv_boolean }
+
+// ---------- cube picking (C13), ZBDD reading of a cube: see `is_cube` / `cube_lit` above ----------
+/// `r` is a cube picked from `t`: one decision per visited node.  Variable true: a node on the same level whose lo-child is ∅
+/// (positive literal), or equal to its hi-child where the diagram itself does not depend on the variable (don't care);
+/// variable false (no node on that level): only where this is a free decision, i.e. the lo-child is satisfiable and the
+/// diagram depends on the variable.  The hi-child of a well-formed ZBDD node is always satisfiable.
+pub open spec fn zpick_ok(t: Tree, r: Tree) -> bool decreases t {
+    match t {
+        Tree::Leaf(_) => r == t,
+        Tree::Inner(l, a, b) => {
+            ||| match r { Tree::Inner(rl, ra, rb) => rl == l && zpick_ok(*a, *ra) && (if *a == *b { *rb == *ra } else { *rb == ee() }), Tree::Leaf(_) => false }
+            ||| (*a != *b && *b != ee() && zpick_ok(*b, r))
+        }
+    }
+}
+/// the same with a literal set `ls` (a cube): where the decision is free it follows the polarity of `ls`; a variable that is
+/// unassigned in `ls` stays don't-care where the diagram allows, otherwise either value may be picked
+pub open spec fn zpick_set_ok(t: Tree, ls: Tree, r: Tree) -> bool decreases t {
+    match t {
+        Tree::Leaf(_) => r == t,
+        Tree::Inner(l, a, b) => {
+            let lit = cube_lit(ls, l as int);
+            let forced = *b == ee();
+            ||| match r { Tree::Inner(rl, ra, rb) => rl == l && zpick_set_ok(*a, ls, *ra)
+                    && (if !forced && lit == Lit::DC && *a == *b { *rb == *ra } else { *rb == ee() })
+                    && (forced || lit != Lit::Neg), Tree::Leaf(_) => false }
+            ||| (!forced && lit != Lit::Pos && !(lit == Lit::DC && *a == *b) && zpick_set_ok(*b, ls, r))
+        }
+    }
+}
+/// what both have in common: `r` decides every visited node of `t`, never enters ∅, and leaves a variable don't-care only
+/// where the diagram does not depend on it
+pub open spec fn zpick_any(t: Tree, r: Tree) -> bool decreases t {
+    match t {
+        Tree::Leaf(_) => r == t,
+        Tree::Inner(l, a, b) => {
+            ||| match r { Tree::Inner(rl, ra, rb) => rl == l && zpick_any(*a, *ra) && (*rb == ee() || (*a == *b && *rb == *ra)), Tree::Leaf(_) => false }
+            ||| (*b != ee() && zpick_any(*b, r))
+        }
+    }
+}
+/// consequences that the property states: the false function exactly for the unsatisfiable function, otherwise a cube
+/// that implies the function (every member of the cube's family is a member of the function's family)
+//@lemma name=lemma_zpick_any_props props=C13
+pub proof fn lemma_zpick_any_props(t: Tree, r: Tree, n: int)
+    requires ok(t, n), zpick_any(t, r),
+    ensures ok(r, n), top(r) >= top(t), (r == ee()) <==> (t == ee()), t != ee() ==> is_cube(r),
+        forall|s: Env| mem(r, s) ==> #[trigger] mem(t, s),
+    decreases t,
+{
+    match t {
+        Tree::Leaf(_) => {}
+        Tree::Inner(l, a, b) => {
+            let pos = match r { Tree::Inner(rl, ra, rb) => rl == l && zpick_any(*a, *ra) && (*rb == ee() || (*a == *b && *rb == *ra)), Tree::Leaf(_) => false };
+            if pos {
+                match r {
+                    Tree::Leaf(_) => {}
+                    Tree::Inner(rl, ra, rb) => {
+                        lemma_zpick_any_props(*a, *ra, n);
+                        assert(wf(ee()) && below(ee(), n) && top(ee()) == u32::MAX as int);
+                        assert(wf(r)); assert(below(r, n));
+                        assert forall|s: Env| mem(r, s) implies #[trigger] mem(t, s) by {
+                            if s(l as int) { assert(mem(*ra, upd(s, l as int, false)) ==> mem(*a, upd(s, l as int, false))); }
+                            else { assert(mem(*rb, s)); assert(*rb != ee()); assert(mem(*ra, s) ==> mem(*a, s)); }
+                        }
+                    }
+                }
+            } else {
+                lemma_zpick_any_props(*b, r, n);
+                assert forall|s: Env| mem(r, s) implies #[trigger] mem(t, s) by {
+                    assert(mem(*b, s));
+                    if s(l as int) { lemma_mem_above_ind(*b, s, l as int); }
+                }
+            }
+        }
+    }
+}
+//@lemma name=lemma_zpick_is_any props=C13
+pub proof fn lemma_zpick_is_any(t: Tree, r: Tree)
+    requires zpick_ok(t, r),
+    ensures zpick_any(t, r),
+    decreases t,
+{
+    match t {
+        Tree::Leaf(_) => {}
+        Tree::Inner(l, a, b) => {
+            match r { Tree::Inner(rl, ra, rb) => { if rl == l && zpick_ok(*a, *ra) { lemma_zpick_is_any(*a, *ra); } } Tree::Leaf(_) => {} }
+            if zpick_ok(*b, r) { lemma_zpick_is_any(*b, r); }
+        }
+    }
+}
+//@lemma name=lemma_zpick_set_is_any props=C13
+pub proof fn lemma_zpick_set_is_any(t: Tree, ls: Tree, r: Tree)
+    requires zpick_set_ok(t, ls, r),
+    ensures zpick_any(t, r),
+    decreases t,
+{
+    match t {
+        Tree::Leaf(_) => {}
+        Tree::Inner(l, a, b) => {
+            match r { Tree::Inner(rl, ra, rb) => { if rl == l && zpick_set_ok(*a, ls, *ra) { lemma_zpick_set_is_any(*a, ls, *ra); } } Tree::Leaf(_) => {} }
+            if zpick_set_ok(*b, ls, r) { lemma_zpick_set_is_any(*b, ls, r); }
+        }
+    }
+}
+pub broadcast proof fn lemma_zpick_ok_mk(l: u32, a: Tree, b: Tree, r: Tree)
+    ensures #[trigger] zpick_ok(mk(l, a, b), r) == ({
+        ||| match r { Tree::Inner(rl, ra, rb) => rl == l && zpick_ok(a, *ra) && (if a == b { *rb == *ra } else { *rb == ee() }), Tree::Leaf(_) => false }
+        ||| (a != b && b != ee() && zpick_ok(b, r))
+    }),
+{}
+pub broadcast proof fn lemma_zpick_ok_leaf(c: bool, r: Tree)
+    ensures #[trigger] zpick_ok(Tree::Leaf(c), r) == (r == Tree::Leaf(c)),
+{}
+pub broadcast proof fn lemma_zpick_ok_ok(t: Tree, r: Tree, n: int)
+    requires wf(t), #[trigger] below(t, n), #[trigger] zpick_ok(t, r),
+    ensures ok(r, n), top(r) >= top(t), (r == ee()) <==> (t == ee()),
+{
+    lemma_zpick_is_any(t, r);
+    lemma_zpick_any_props(t, r, n);
+}
+pub broadcast proof fn lemma_zpick_set_ok_mk(l: u32, a: Tree, b: Tree, ls: Tree, r: Tree)
+    ensures #[trigger] zpick_set_ok(mk(l, a, b), ls, r) == ({
+        let lit = cube_lit(ls, l as int);
+        let forced = b == ee();
+        ||| match r { Tree::Inner(rl, ra, rb) => rl == l && zpick_set_ok(a, ls, *ra)
+                && (if !forced && lit == Lit::DC && a == b { *rb == *ra } else { *rb == ee() })
+                && (forced || lit != Lit::Neg), Tree::Leaf(_) => false }
+        ||| (!forced && lit != Lit::Pos && !(lit == Lit::DC && a == b) && zpick_set_ok(b, ls, r))
+    }),
+{}
+pub broadcast proof fn lemma_zpick_set_ok_leaf(c: bool, ls: Tree, r: Tree)
+    ensures #[trigger] zpick_set_ok(Tree::Leaf(c), ls, r) == (r == Tree::Leaf(c)),
+{}
+pub broadcast proof fn lemma_zpick_set_ok_ok(t: Tree, ls: Tree, r: Tree, n: int)
+    requires wf(t), #[trigger] below(t, n), #[trigger] zpick_set_ok(t, ls, r),
+    ensures ok(r, n), top(r) >= top(t), (r == ee()) <==> (t == ee()),
+{
+    lemma_zpick_set_is_any(t, ls, r);
+    lemma_zpick_any_props(t, r, n);
+}
+/// literal sets: dropping the literals above level `until` (following the hi-child, the rest of the cube)
+pub open spec fn zpopped(ls: Tree, until: int) -> Tree decreases ls {
+    match ls {
+        Tree::Leaf(_) => ls,
+        Tree::Inner(k, a, _) => if (k as int) >= until { ls } else { zpopped(*a, until) },
+    }
+}
+pub proof fn lemma_cube_lit_zpopped(ls: Tree, until: int, l: int)
+    requires l >= until, wf(ls),
+    ensures cube_lit(zpopped(ls, until), l) == cube_lit(ls, l),
+    decreases ls,
+{
+    match ls {
+        Tree::Leaf(_) => {}
+        Tree::Inner(k, a, b) => { if (k as int) < until { lemma_cube_lit_zpopped(*a, until, l); } }
+    }
+}
+/// the literal set may be replaced by any set that agrees on all levels the diagram can still visit
+pub proof fn lemma_zpick_set_transfer(t: Tree, ls1: Tree, ls2: Tree, r: Tree)
+    requires wf(t), zpick_set_ok(t, ls1, r), forall|l: int| l >= top(t) ==> #[trigger] cube_lit(ls1, l) == cube_lit(ls2, l),
+    ensures zpick_set_ok(t, ls2, r),
+    decreases t,
+{
+    match t {
+        Tree::Leaf(_) => {}
+        Tree::Inner(l, a, b) => {
+            assert(cube_lit(ls1, l as int) == cube_lit(ls2, l as int));
+            match r { Tree::Inner(rl, ra, rb) => { if rl == l && zpick_set_ok(*a, ls1, *ra) { lemma_zpick_set_transfer(*a, ls1, ls2, *ra); } } Tree::Leaf(_) => {} }
+            if zpick_set_ok(*b, ls1, r) { lemma_zpick_set_transfer(*b, ls1, ls2, r); }
+        }
+    }
+}
+/// one recursion step: the callee saw the literal set popped to some level `u <= top(t)`
+pub broadcast proof fn lemma_zpick_set_zpopped(t: Tree, ls: Tree, u: int, r: Tree)
+    requires wf(t), wf(ls), u <= top(t), #[trigger] zpick_set_ok(t, zpopped(ls, u), r),
+    ensures zpick_set_ok(t, ls, r),
+{
+    assert forall|l: int| l >= top(t) implies #[trigger] cube_lit(zpopped(ls, u), l) == cube_lit(ls, l) by { lemma_cube_lit_zpopped(ls, u, l); }
+    lemma_zpick_set_transfer(t, zpopped(ls, u), ls, r);
+}
+pub broadcast proof fn lemma_zpopped_mk(k: u32, a: Tree, b: Tree, until: int)
+    ensures #[trigger] zpopped(mk(k, a, b), until) == (if (k as int) >= until { mk(k, a, b) } else { zpopped(a, until) }),
+{}
+pub broadcast proof fn lemma_zpopped_ok(ls: Tree, until: int, n: int)
+    requires #[trigger] below(ls, n), wf(ls),
+    ensures below(#[trigger] zpopped(ls, until), n), wf(zpopped(ls, until)), top(zpopped(ls, until)) >= until || zpopped(ls, until) is Leaf,
+    decreases ls,
+{
+    match ls {
+        Tree::Leaf(_) => {}
+        Tree::Inner(k, a, b) => { if (k as int) < until { lemma_zpopped_ok(*a, until, n); } }
+    }
+}
+pub broadcast proof fn lemma_cube_lit_zpopped_b(ls: Tree, until: int, l: int)
+    requires l >= until, wf(ls),
+    ensures cube_lit(#[trigger] zpopped(ls, until), l) == #[trigger] cube_lit(ls, l),
+{
+    lemma_cube_lit_zpopped(ls, until, l);
+}
+pub broadcast proof fn lemma_cube_lit_leaf(c: bool, l: int)
+    ensures #[trigger] cube_lit(Tree::Leaf(c), l) == Lit::Neg,
+{}
+pub broadcast group pick_lemmas { lemma_zpick_ok_mk, lemma_zpick_ok_leaf, lemma_zpick_ok_ok, lemma_zpick_set_ok_mk, lemma_zpick_set_ok_leaf, lemma_zpick_set_ok_ok,
+    lemma_zpick_set_zpopped, lemma_zpopped_mk, lemma_zpopped_ok, lemma_cube_lit_zpopped_b, lemma_cube_lit_leaf, lemma_cube_lit_mk }
+
+// ---------- eval (C02): the `ones` counter of eval_edge ----------
+pub open spec fn sof(bits: Seq<bool>) -> Env { |i: int| 0 <= i < bits.len() && bits[i] }
+/// number of set bits at indices >= from
+pub open spec fn cnt(bits: Seq<bool>, from: int) -> int decreases bits.len() - from {
+    if from >= bits.len() || from < 0 { 0 } else { (if bits[from] { 1int } else { 0int }) + cnt(bits, from + 1) }
+}
+pub open spec fn from_lv(s: Env, l: int) -> Env { |i: int| i >= l && s(i) }
+/// what `eval_edge::inner` computes: all remaining ones are consumed by the nodes on the path
+pub open spec fn evalp(t: Tree, bits: Seq<bool>, ones: int) -> bool {
+    ones == cnt(bits, top(t)) && mem(t, from_lv(sof(bits), top(t)))
+}
+/// precondition of `inner`: `ones` is at least the number of set bits at the levels the diagram can still visit (no underflow)
+pub open spec fn eval_pre(t: Tree, bits: Seq<bool>, ones: int) -> bool { ones >= cnt(bits, top(t)) }
+pub proof fn lemma_cnt_range(bits: Seq<bool>, a: int, b: int)
+    requires 0 <= a <= b,
+    ensures cnt(bits, a) >= cnt(bits, b) >= 0, (cnt(bits, a) == cnt(bits, b)) <==> (forall|i: int| a <= i < b ==> !(#[trigger] sof(bits)(i))),
+    decreases b - a,
+{
+    lemma_cnt_nonneg(bits, b);
+    if a < b {
+        lemma_cnt_range(bits, a + 1, b);
+        if a < bits.len() {
+            assert(cnt(bits, a) == (if bits[a] { 1int } else { 0int }) + cnt(bits, a + 1));
+            if cnt(bits, a) == cnt(bits, b) {
+                assert forall|i: int| a <= i < b implies !(#[trigger] sof(bits)(i)) by { if i == a {} }
+            }
+            if forall|i: int| a <= i < b ==> !(#[trigger] sof(bits)(i)) { assert(!sof(bits)(a)); }
+        } else {
+            lemma_cnt_beyond(bits, a); lemma_cnt_beyond(bits, b);
+        }
+    }
+}
+pub proof fn lemma_cnt_nonneg(bits: Seq<bool>, a: int)
+    ensures cnt(bits, a) >= 0,
+    decreases bits.len() - a,
+{ if 0 <= a < bits.len() { lemma_cnt_nonneg(bits, a + 1); } }
+pub proof fn lemma_cnt_beyond(bits: Seq<bool>, a: int)
+    requires a >= bits.len(),
+    ensures cnt(bits, a) == 0,
+{}
+/// skipped levels: shifting the start of the count from `top(t)` up to `l <= top(t)` changes nothing iff no bit is set in between,
+/// and otherwise both sides are false
+pub proof fn lemma_eval_shift(t: Tree, bits: Seq<bool>, l: int, ones: int)
+    requires wf(t), 0 <= l <= top(t), ones >= cnt(bits, l),
+    ensures evalp(t, bits, ones) == (ones == cnt(bits, l) && mem(t, from_lv(sof(bits), l))),
+{
+    let s = sof(bits);
+    lemma_cnt_range(bits, l, top(t));
+    if forall|i: int| l <= i < top(t) ==> !(#[trigger] sof(bits)(i)) {
+        assert(from_lv(s, l) =~= from_lv(s, top(t))) by { assert forall|i: int| #[trigger] from_lv(s, l)(i) == from_lv(s, top(t))(i) by { if s(i) { assert(sof(bits)(i)); } } }
+    } else {
+        let i = choose|i: int| l <= i < top(t) && #[trigger] sof(bits)(i);
+        assert(from_lv(s, l)(i));
+        lemma_mem_above_ind(t, from_lv(s, l), i);
+    }
+}
+pub broadcast proof fn lemma_eval_pre_mk(l: u32, hi: Tree, lo: Tree, bits: Seq<bool>, ones: int)
+    requires wf(mk(l, hi, lo)), #[trigger] eval_pre(mk(l, hi, lo), bits, ones),
+    ensures (if 0 <= l < bits.len() && bits[l as int] { ones >= 1 && eval_pre(hi, bits, ones - 1) } else { eval_pre(lo, bits, ones) }),
+{
+    let v = l as int;
+    lemma_cnt_nonneg(bits, v + 1);
+    if v >= bits.len() { lemma_cnt_beyond(bits, v); lemma_cnt_beyond(bits, v + 1); }
+    lemma_cnt_range(bits, v + 1, top(hi));
+    lemma_cnt_range(bits, v + 1, top(lo));
+}
+pub broadcast proof fn lemma_evalp_mk(l: u32, hi: Tree, lo: Tree, bits: Seq<bool>, ones: int)
+    requires wf(mk(l, hi, lo)), eval_pre(mk(l, hi, lo), bits, ones),
+    ensures #[trigger] evalp(mk(l, hi, lo), bits, ones) == (if 0 <= l < bits.len() && bits[l as int] { evalp(hi, bits, ones - 1) } else { evalp(lo, bits, ones) }),
+{
+    let s = sof(bits);
+    let v = l as int;
+    let t = mk(l, hi, lo);
+    lemma_cnt_nonneg(bits, v + 1);
+    assert(mem(t, from_lv(s, v)) == (if from_lv(s, v)(v) { mem(hi, upd(from_lv(s, v), v, false)) } else { mem(lo, from_lv(s, v)) }));
+    if 0 <= l < bits.len() && bits[v] {
+        assert(s(v));
+        assert(upd(from_lv(s, v), v, false) =~= from_lv(s, v + 1));
+        lemma_cnt_range(bits, v + 1, top(hi));
+        lemma_eval_shift(hi, bits, v + 1, ones - 1);
+    } else {
+        assert(!s(v));
+        assert(from_lv(s, v) =~= from_lv(s, v + 1)) by { assert forall|i: int| #[trigger] from_lv(s, v)(i) == from_lv(s, v + 1)(i) by { if i == v {} } }
+        if v >= bits.len() { lemma_cnt_beyond(bits, v); lemma_cnt_beyond(bits, v + 1); }
+        lemma_cnt_range(bits, v + 1, top(lo));
+        lemma_eval_shift(lo, bits, v + 1, ones);
+    }
+}
+pub broadcast proof fn lemma_evalp_leaf(b: bool, bits: Seq<bool>, ones: int)
+    requires eval_pre(Tree::Leaf(b), bits, ones),
+    ensures #[trigger] evalp(Tree::Leaf(b), bits, ones) == (ones == 0 && b),
+{
+    let s = sof(bits);
+    let m = u32::MAX as int;
+    lemma_cnt_nonneg(bits, m);
+    if bits.len() > m { lemma_cnt_range(bits, m, bits.len() as int); lemma_cnt_beyond(bits, bits.len() as int); }
+    else { lemma_cnt_beyond(bits, m); }
+    if cnt(bits, m) == 0 {
+        assert forall|i: int| !(#[trigger] from_lv(s, m)(i)) by { if i >= m && s(i) { assert(sof(bits)(i)); } }
+    } else {
+        let i = choose|i: int| m <= i < bits.len() && #[trigger] sof(bits)(i);
+        assert(from_lv(s, m)(i));
+    }
+}
+/// with `ones` = number of variables set to true (what `eval_edge` passes), `inner` decides family membership of the set of
+/// true variables, i.e. evaluates the Boolean function
+pub broadcast proof fn lemma_evalp_top(t: Tree, bits: Seq<bool>, ones: int)
+    requires wf(t), #[trigger] eval_pre(t, bits, ones), ones == cnt(bits, 0),
+    ensures evalp(t, bits, ones) == #[trigger] mem(t, sof(bits)),
+{
+    let s = sof(bits);
+    lemma_eval_shift(t, bits, 0, ones);
+    assert(from_lv(s, 0) =~= s) by { assert forall|i: int| #[trigger] from_lv(s, 0)(i) == s(i) by { if s(i) {} } }
+}
+pub broadcast proof fn lemma_bsem_sof(t: Tree, bits: Seq<bool>, n: int)
+    requires bits.len() <= n,
+    ensures #[trigger] bsem(t, n, sof(bits)) == mem(t, sof(bits)),
+{
+    let s = sof(bits);
+    assert(set_of(s, n) =~= s) by { assert forall|i: int| #[trigger] set_of(s, n)(i) == s(i) by { if s(i) {} } }
+}
+pub broadcast group eval_lemmas { lemma_eval_pre_mk, lemma_evalp_mk, lemma_evalp_leaf, lemma_evalp_top, lemma_bsem_sof }
+
 // ---------- environment stubs (ASSUMED manager contract) ----------
 pub type LevelNo = u32;
 pub type VarNo = u32;
@@ -413,6 +973,9 @@ impl<M: Manager> CacheOp<M> for ZBDDOp {
         else if o == ZBDDOp::Diff as u8 { operands.len() == 2 && diff_post(operands[0], operands[1], n, res) }
         else if o == ZBDDOp::SymmDiff as u8 { operands.len() == 2 && symm_diff_post(operands[0], operands[1], n, res) }
         else if o == ZBDDOp::Ite as u8 { operands.len() == 3 && ite_post(operands[0], operands[1], operands[2], n, res) }
+        // restrict is cached only when both operands have a node at the current level, so the level is determined by the key
+        else if o == ZBDDOp::Restrict as u8 { operands.len() == 2 && is_inner(operands[0]) && top(operands[0]) == top(operands[1])
+            && restrict_post(operands[0], operands[1], top(operands[0]), n, res) }
         else { false }
     }
     open spec fn inv_ext(self, m: &M, operands: Seq<Tree>, nums: Seq<u32>, res: Seq<Tree>, res_nums: Seq<u32>) -> bool {
@@ -538,9 +1101,9 @@ impl<E: Edge> ZBDDCache<E> {
 //@end
 }
 
-mod apply_rec {
+pub mod apply_rec {
 use super::*;
-broadcast use {leaf_lemmas, upd_lemmas, taut_lemmas, set_lemmas};
+broadcast use {leaf_lemmas, taut_lemmas};
 //@fn file=crates/oxidd-rules-zbdd/src/apply_rec.rs path=fn:apply_union nodecr expect=R5:1 props=C09,C02,C06 vis=pub
 //@spec
     requires edge_ok::<M::Edge>(), ok(f.view(), manager.num_levels_spec()), ok(g.view(), manager.num_levels_spec()),
@@ -561,17 +1124,296 @@ broadcast use {leaf_lemmas, upd_lemmas, taut_lemmas, set_lemmas};
     requires edge_ok::<M::Edge>(), ok(f.view(), manager.num_levels_spec()), ok(g.view(), manager.num_levels_spec()),
     ensures res is Ok ==> symm_diff_post(f.view(), g.view(), manager.num_levels_spec(), res->Ok_0.view()),
 //@end
-//@fn file=crates/oxidd-rules-zbdd/src/apply_rec.rs path=fn:apply_not nodecr props=C02,C06
+//@fn file=crates/oxidd-rules-zbdd/src/apply_rec.rs path=fn:apply_not nodecr props=C02,C06 vis=pub(crate)
 //@spec
     requires edge_ok::<M::Edge>(), zcache_ok(manager), ok(f.view(), manager.num_levels_spec()),
     ensures res is Ok ==> not_post(f.view(), manager.num_levels_spec(), res->Ok_0.view()),
 //@end
-//@fn file=crates/oxidd-rules-zbdd/src/apply_rec.rs path=fn:apply_ite nodecr expect=R5:3 props=C02,C06
+//@fn file=crates/oxidd-rules-zbdd/src/apply_rec.rs path=fn:apply_ite nodecr expect=R5:3 props=C02,C06 vis=pub(crate)
 //@spec
     requires edge_ok::<M::Edge>(), zcache_ok(manager), ok(f.view(), manager.num_levels_spec()), ok(g.view(), manager.num_levels_spec()), ok(h.view(), manager.num_levels_spec()),
     ensures res is Ok ==> ite_post(f.view(), g.view(), h.view(), manager.num_levels_spec(), res->Ok_0.view()),
 //@end
 } // mod apply_rec
+pub mod apply_rec_w {
+use super::*;
+use super::apply_rec::*;
+broadcast use {leaf_lemmas, upd_lemmas, taut_lemmas, set_lemmas};
+//@fn file=crates/oxidd-rules-zbdd/src/apply_rec.rs path=fn:subset nodecr expect=R5:1,R11:1 props=C09,C06 cases=VAL:0-1,0,1 vis=pub
+//@spec
+    requires VAL == -1 || VAL == 0 || VAL == 1, edge_ok::<M::Edge>(), ok(f.view(), manager.num_levels_spec()),
+        (var as int) < manager.num_levels_spec(), var_level as int == manager.var_to_level_spec(var as int),
+        (var_level as int) < manager.num_levels_spec() <= u32::MAX,
+    ensures res is Ok ==> (VAL == 0 ==> subset0_post(f.view(), var_level as int, manager.num_levels_spec(), res->Ok_0.view()))
+        && (VAL == 1 ==> subset1_post(f.view(), var_level as int, manager.num_levels_spec(), res->Ok_0.view()))
+        && (VAL == -1 ==> change_post(f.view(), var_level as int, manager.num_levels_spec(), res->Ok_0.view())),
+//@end
+/// R10-style helper: what callers of `subset::<_, _, -1>(..)` see, i.e. the contract of `subset` (proved on the real body in
+/// `subset__case_0_1`) at VAL == -1.  Needed because the installed Verus mis-encodes NEGATIVE const-generic arguments at
+/// call sites (`g::<-1>()` makes the caller's context inconsistent; probed), so the call cannot be checked directly.
+#[verifier::external_body]
+pub fn subset_change<M, R: Recursor<M>>(manager: &M, rec: R, f: Borrowed<M::Edge>, var: VarNo, var_level: LevelNo) -> (res: AllocResult<M::Edge>)
+where M: Manager<Terminal = ZBDDTerminal> + HasApplyCache<M, ZBDDOp>, M::InnerNode: HasLevel,
+    requires edge_ok::<M::Edge>(), ok(f.view(), manager.num_levels_spec()),
+        (var as int) < manager.num_levels_spec(), var_level as int == manager.var_to_level_spec(var as int),
+        (var_level as int) < manager.num_levels_spec() <= u32::MAX,
+    ensures res is Ok ==> change_post(f.view(), var_level as int, manager.num_levels_spec(), res->Ok_0.view()),
+{ unimplemented!() }
+//@fn file=crates/oxidd-rules-zbdd/src/apply_rec.rs path=impl:BooleanVecSet~for~ZBDDFunction<F>/fn:singleton_edge props=C09,C03
+//@header
+fn singleton_edge<M>(manager: &M, var: VarNo) -> (res: AllocResult<M::Edge>)
+where M: Manager<Terminal = ZBDDTerminal> + HasApplyCache<M, ZBDDOp> + HasZBDDCache<M::Edge>, M::InnerNode: HasLevel,
+//@spec
+    requires (var as int) < manager.num_levels_spec(),
+    // exactly the family { {var} }
+    ensures res is Ok ==> ok(res->Ok_0.view(), manager.num_levels_spec())
+        && forall|s: Env| #[trigger] mem(res->Ok_0.view(), s) == is_singleton_set(s, manager.var_to_level_spec(var as int)),
+//@end
+//@fn file=crates/oxidd-rules-zbdd/src/apply_rec.rs path=impl:BooleanVecSet~for~ZBDDFunction<F>/fn:empty_edge props=C09
+//@header
+fn empty_edge<M>(manager: &M) -> (res: M::Edge)
+where M: Manager<Terminal = ZBDDTerminal> + HasApplyCache<M, ZBDDOp> + HasZBDDCache<M::Edge>, M::InnerNode: HasLevel,
+//@spec
+    ensures ok(res.view(), manager.num_levels_spec()), forall|s: Env| !(#[trigger] mem(res.view(), s)),
+//@end
+//@fn file=crates/oxidd-rules-zbdd/src/apply_rec.rs path=impl:BooleanVecSet~for~ZBDDFunction<F>/fn:base_edge props=C09
+//@header
+fn base_edge<M>(manager: &M) -> (res: M::Edge)
+where M: Manager<Terminal = ZBDDTerminal> + HasApplyCache<M, ZBDDOp> + HasZBDDCache<M::Edge>, M::InnerNode: HasLevel,
+//@spec
+    ensures ok(res.view(), manager.num_levels_spec()), forall|s: Env| #[trigger] mem(res.view(), s) == is_empty_set(s),
+//@end
+//@fn file=crates/oxidd-rules-zbdd/src/apply_rec.rs path=impl:BooleanVecSet~for~ZBDDFunction<F>/fn:subset0_edge props=C09
+//@header
+fn subset0_edge<M>(manager: &M, set: &M::Edge, var: VarNo) -> (res: AllocResult<M::Edge>)
+where M: Manager<Terminal = ZBDDTerminal> + HasApplyCache<M, ZBDDOp> + HasZBDDCache<M::Edge>, M::InnerNode: HasLevel,
+//@spec
+    requires edge_ok::<M::Edge>(), ok(set.view(), manager.num_levels_spec()), (var as int) < manager.num_levels_spec(),
+    ensures res is Ok ==> subset0_post(set.view(), manager.var_to_level_spec(var as int), manager.num_levels_spec(), res->Ok_0.view()),
+//@end
+//@fn file=crates/oxidd-rules-zbdd/src/apply_rec.rs path=impl:BooleanVecSet~for~ZBDDFunction<F>/fn:subset1_edge props=C09
+//@header
+fn subset1_edge<M>(manager: &M, set: &M::Edge, var: VarNo) -> (res: AllocResult<M::Edge>)
+where M: Manager<Terminal = ZBDDTerminal> + HasApplyCache<M, ZBDDOp> + HasZBDDCache<M::Edge>, M::InnerNode: HasLevel,
+//@spec
+    requires edge_ok::<M::Edge>(), ok(set.view(), manager.num_levels_spec()), (var as int) < manager.num_levels_spec(),
+    ensures res is Ok ==> subset1_post(set.view(), manager.var_to_level_spec(var as int), manager.num_levels_spec(), res->Ok_0.view()),
+//@end
+//@fn file=crates/oxidd-rules-zbdd/src/apply_rec.rs path=impl:BooleanVecSet~for~ZBDDFunction<F>/fn:change_edge props=C09 subst_text=subset::<_,~_,~-1>::=subset_change
+//@header
+fn change_edge<M>(manager: &M, set: &M::Edge, var: VarNo) -> (res: AllocResult<M::Edge>)
+where M: Manager<Terminal = ZBDDTerminal> + HasApplyCache<M, ZBDDOp> + HasZBDDCache<M::Edge>, M::InnerNode: HasLevel,
+//@spec
+    requires edge_ok::<M::Edge>(), ok(set.view(), manager.num_levels_spec()), (var as int) < manager.num_levels_spec(),
+    ensures res is Ok ==> change_post(set.view(), manager.var_to_level_spec(var as int), manager.num_levels_spec(), res->Ok_0.view()),
+//@end
+//@fn file=crates/oxidd-rules-zbdd/src/apply_rec.rs path=impl:BooleanVecSet~for~ZBDDFunction<F>/fn:union_edge props=C09
+//@header
+fn union_edge<M>(manager: &M, lhs: &M::Edge, rhs: &M::Edge) -> (res: AllocResult<M::Edge>)
+where M: Manager<Terminal = ZBDDTerminal> + HasApplyCache<M, ZBDDOp> + HasZBDDCache<M::Edge>, M::InnerNode: HasLevel,
+//@spec
+    requires edge_ok::<M::Edge>(), ok(lhs.view(), manager.num_levels_spec()), ok(rhs.view(), manager.num_levels_spec()),
+    ensures res is Ok ==> union_post(lhs.view(), rhs.view(), manager.num_levels_spec(), res->Ok_0.view()),
+//@end
+//@fn file=crates/oxidd-rules-zbdd/src/apply_rec.rs path=impl:BooleanVecSet~for~ZBDDFunction<F>/fn:intsec_edge props=C09
+//@header
+fn intsec_edge<M>(manager: &M, lhs: &M::Edge, rhs: &M::Edge) -> (res: AllocResult<M::Edge>)
+where M: Manager<Terminal = ZBDDTerminal> + HasApplyCache<M, ZBDDOp> + HasZBDDCache<M::Edge>, M::InnerNode: HasLevel,
+//@spec
+    requires edge_ok::<M::Edge>(), ok(lhs.view(), manager.num_levels_spec()), ok(rhs.view(), manager.num_levels_spec()),
+    ensures res is Ok ==> intsec_post(lhs.view(), rhs.view(), manager.num_levels_spec(), res->Ok_0.view()),
+//@end
+//@fn file=crates/oxidd-rules-zbdd/src/apply_rec.rs path=impl:BooleanVecSet~for~ZBDDFunction<F>/fn:diff_edge props=C09
+//@header
+fn diff_edge<M>(manager: &M, lhs: &M::Edge, rhs: &M::Edge) -> (res: AllocResult<M::Edge>)
+where M: Manager<Terminal = ZBDDTerminal> + HasApplyCache<M, ZBDDOp> + HasZBDDCache<M::Edge>, M::InnerNode: HasLevel,
+//@spec
+    requires edge_ok::<M::Edge>(), ok(lhs.view(), manager.num_levels_spec()), ok(rhs.view(), manager.num_levels_spec()),
+    ensures res is Ok ==> diff_post(lhs.view(), rhs.view(), manager.num_levels_spec(), res->Ok_0.view()),
+//@end
+//@fn file=crates/oxidd-rules-zbdd/src/apply_rec.rs path=impl:BooleanFunction~for~ZBDDFunction<F>/fn:f_edge props=C02
+//@header
+fn f_edge<M>(manager: &M) -> (res: M::Edge)
+where M: Manager<Terminal = ZBDDTerminal> + HasApplyCache<M, ZBDDOp> + HasZBDDCache<M::Edge>, M::InnerNode: HasLevel,
+//@spec
+    ensures ok(res.view(), manager.num_levels_spec()), forall|env: Env| !(#[trigger] bsem(res.view(), manager.num_levels_spec(), env)),
+//@end
+//@fn file=crates/oxidd-rules-zbdd/src/apply_rec.rs path=impl:BooleanFunction~for~ZBDDFunction<F>/fn:t_edge props=C02
+//@header
+fn t_edge<M>(manager: &M) -> (res: M::Edge)
+where M: Manager<Terminal = ZBDDTerminal> + HasApplyCache<M, ZBDDOp> + HasZBDDCache<M::Edge>, M::InnerNode: HasLevel,
+//@spec
+    requires zcache_ok(manager),
+    ensures ok(res.view(), manager.num_levels_spec()), forall|env: Env| #[trigger] bsem(res.view(), manager.num_levels_spec(), env),
+//@end
+//@fn file=crates/oxidd-rules-zbdd/src/apply_rec.rs path=impl:BooleanFunction~for~ZBDDFunction<F>/fn:not_edge props=C02
+//@header
+fn not_edge<M>(manager: &M, edge: &M::Edge) -> (res: AllocResult<M::Edge>)
+where M: Manager<Terminal = ZBDDTerminal> + HasApplyCache<M, ZBDDOp> + HasZBDDCache<M::Edge>, M::InnerNode: HasLevel,
+//@spec
+    requires edge_ok::<M::Edge>(), zcache_ok(manager), ok(edge.view(), manager.num_levels_spec()),
+    ensures res is Ok ==> ok(res->Ok_0.view(), manager.num_levels_spec())
+        && forall|env: Env| #[trigger] bsem(res->Ok_0.view(), manager.num_levels_spec(), env) == !bsem(edge.view(), manager.num_levels_spec(), env),
+//@end
+//@fn file=crates/oxidd-rules-zbdd/src/apply_rec.rs path=impl:BooleanFunction~for~ZBDDFunction<F>/fn:and_edge props=C02
+//@header
+fn and_edge<M>(manager: &M, lhs: &M::Edge, rhs: &M::Edge) -> (res: AllocResult<M::Edge>)
+where M: Manager<Terminal = ZBDDTerminal> + HasApplyCache<M, ZBDDOp> + HasZBDDCache<M::Edge>, M::InnerNode: HasLevel,
+//@spec
+    requires edge_ok::<M::Edge>(), zcache_ok(manager), ok(lhs.view(), manager.num_levels_spec()), ok(rhs.view(), manager.num_levels_spec()),
+    ensures res is Ok ==> ok(res->Ok_0.view(), manager.num_levels_spec())
+        && forall|env: Env| #[trigger] bsem(res->Ok_0.view(), manager.num_levels_spec(), env)
+            == prop_and(bsem(lhs.view(), manager.num_levels_spec(), env), bsem(rhs.view(), manager.num_levels_spec(), env)),
+//@end
+//@fn file=crates/oxidd-rules-zbdd/src/apply_rec.rs path=impl:BooleanFunction~for~ZBDDFunction<F>/fn:or_edge props=C02
+//@header
+fn or_edge<M>(manager: &M, lhs: &M::Edge, rhs: &M::Edge) -> (res: AllocResult<M::Edge>)
+where M: Manager<Terminal = ZBDDTerminal> + HasApplyCache<M, ZBDDOp> + HasZBDDCache<M::Edge>, M::InnerNode: HasLevel,
+//@spec
+    requires edge_ok::<M::Edge>(), zcache_ok(manager), ok(lhs.view(), manager.num_levels_spec()), ok(rhs.view(), manager.num_levels_spec()),
+    ensures res is Ok ==> ok(res->Ok_0.view(), manager.num_levels_spec())
+        && forall|env: Env| #[trigger] bsem(res->Ok_0.view(), manager.num_levels_spec(), env)
+            == prop_or(bsem(lhs.view(), manager.num_levels_spec(), env), bsem(rhs.view(), manager.num_levels_spec(), env)),
+//@end
+//@fn file=crates/oxidd-rules-zbdd/src/apply_rec.rs path=impl:BooleanFunction~for~ZBDDFunction<F>/fn:nand_edge props=C02 selfcall=Self::>
+//@header
+fn nand_edge<M>(manager: &M, lhs: &M::Edge, rhs: &M::Edge) -> (res: AllocResult<M::Edge>)
+where M: Manager<Terminal = ZBDDTerminal> + HasApplyCache<M, ZBDDOp> + HasZBDDCache<M::Edge>, M::InnerNode: HasLevel,
+//@spec
+    requires edge_ok::<M::Edge>(), zcache_ok(manager), ok(lhs.view(), manager.num_levels_spec()), ok(rhs.view(), manager.num_levels_spec()),
+    ensures res is Ok ==> ok(res->Ok_0.view(), manager.num_levels_spec())
+        && forall|env: Env| #[trigger] bsem(res->Ok_0.view(), manager.num_levels_spec(), env)
+            == prop_nand(bsem(lhs.view(), manager.num_levels_spec(), env), bsem(rhs.view(), manager.num_levels_spec(), env)),
+//@end
+//@fn file=crates/oxidd-rules-zbdd/src/apply_rec.rs path=impl:BooleanFunction~for~ZBDDFunction<F>/fn:nor_edge props=C02 selfcall=Self::>
+//@header
+fn nor_edge<M>(manager: &M, lhs: &M::Edge, rhs: &M::Edge) -> (res: AllocResult<M::Edge>)
+where M: Manager<Terminal = ZBDDTerminal> + HasApplyCache<M, ZBDDOp> + HasZBDDCache<M::Edge>, M::InnerNode: HasLevel,
+//@spec
+    requires edge_ok::<M::Edge>(), zcache_ok(manager), ok(lhs.view(), manager.num_levels_spec()), ok(rhs.view(), manager.num_levels_spec()),
+    ensures res is Ok ==> ok(res->Ok_0.view(), manager.num_levels_spec())
+        && forall|env: Env| #[trigger] bsem(res->Ok_0.view(), manager.num_levels_spec(), env)
+            == prop_nor(bsem(lhs.view(), manager.num_levels_spec(), env), bsem(rhs.view(), manager.num_levels_spec(), env)),
+//@end
+//@fn file=crates/oxidd-rules-zbdd/src/apply_rec.rs path=impl:BooleanFunction~for~ZBDDFunction<F>/fn:xor_edge props=C02
+//@header
+fn xor_edge<M>(manager: &M, lhs: &M::Edge, rhs: &M::Edge) -> (res: AllocResult<M::Edge>)
+where M: Manager<Terminal = ZBDDTerminal> + HasApplyCache<M, ZBDDOp> + HasZBDDCache<M::Edge>, M::InnerNode: HasLevel,
+//@spec
+    requires edge_ok::<M::Edge>(), zcache_ok(manager), ok(lhs.view(), manager.num_levels_spec()), ok(rhs.view(), manager.num_levels_spec()),
+    ensures res is Ok ==> ok(res->Ok_0.view(), manager.num_levels_spec())
+        && forall|env: Env| #[trigger] bsem(res->Ok_0.view(), manager.num_levels_spec(), env)
+            == prop_xor(bsem(lhs.view(), manager.num_levels_spec(), env), bsem(rhs.view(), manager.num_levels_spec(), env)),
+//@end
+//@fn file=crates/oxidd-rules-zbdd/src/apply_rec.rs path=impl:BooleanFunction~for~ZBDDFunction<F>/fn:equiv_edge props=C02 selfcall=Self::>
+//@header
+fn equiv_edge<M>(manager: &M, lhs: &M::Edge, rhs: &M::Edge) -> (res: AllocResult<M::Edge>)
+where M: Manager<Terminal = ZBDDTerminal> + HasApplyCache<M, ZBDDOp> + HasZBDDCache<M::Edge>, M::InnerNode: HasLevel,
+//@spec
+    requires edge_ok::<M::Edge>(), zcache_ok(manager), ok(lhs.view(), manager.num_levels_spec()), ok(rhs.view(), manager.num_levels_spec()),
+    ensures res is Ok ==> ok(res->Ok_0.view(), manager.num_levels_spec())
+        && forall|env: Env| #[trigger] bsem(res->Ok_0.view(), manager.num_levels_spec(), env)
+            == prop_equiv(bsem(lhs.view(), manager.num_levels_spec(), env), bsem(rhs.view(), manager.num_levels_spec(), env)),
+//@end
+//@fn file=crates/oxidd-rules-zbdd/src/apply_rec.rs path=impl:BooleanFunction~for~ZBDDFunction<F>/fn:imp_edge props=C02 selfcall=Self::>
+//@header
+fn imp_edge<M>(manager: &M, lhs: &M::Edge, rhs: &M::Edge) -> (res: AllocResult<M::Edge>)
+where M: Manager<Terminal = ZBDDTerminal> + HasApplyCache<M, ZBDDOp> + HasZBDDCache<M::Edge>, M::InnerNode: HasLevel,
+//@spec
+    requires edge_ok::<M::Edge>(), zcache_ok(manager), ok(lhs.view(), manager.num_levels_spec()), ok(rhs.view(), manager.num_levels_spec()),
+    ensures res is Ok ==> ok(res->Ok_0.view(), manager.num_levels_spec())
+        && forall|env: Env| #[trigger] bsem(res->Ok_0.view(), manager.num_levels_spec(), env)
+            == prop_imp(bsem(lhs.view(), manager.num_levels_spec(), env), bsem(rhs.view(), manager.num_levels_spec(), env)),
+//@end
+//@fn file=crates/oxidd-rules-zbdd/src/apply_rec.rs path=impl:BooleanFunction~for~ZBDDFunction<F>/fn:imp_strict_edge props=C02
+//@header
+fn imp_strict_edge<M>(manager: &M, lhs: &M::Edge, rhs: &M::Edge) -> (res: AllocResult<M::Edge>)
+where M: Manager<Terminal = ZBDDTerminal> + HasApplyCache<M, ZBDDOp> + HasZBDDCache<M::Edge>, M::InnerNode: HasLevel,
+//@spec
+    requires edge_ok::<M::Edge>(), zcache_ok(manager), ok(lhs.view(), manager.num_levels_spec()), ok(rhs.view(), manager.num_levels_spec()),
+    ensures res is Ok ==> ok(res->Ok_0.view(), manager.num_levels_spec())
+        && forall|env: Env| #[trigger] bsem(res->Ok_0.view(), manager.num_levels_spec(), env)
+            == prop_imp_strict(bsem(lhs.view(), manager.num_levels_spec(), env), bsem(rhs.view(), manager.num_levels_spec(), env)),
+//@end
+//@fn file=crates/oxidd-rules-zbdd/src/apply_rec.rs path=impl:BooleanFunction~for~ZBDDFunction<F>/fn:ite_edge props=C02
+//@header
+fn ite_edge<M>(manager: &M, f: &M::Edge, g: &M::Edge, h: &M::Edge) -> (res: AllocResult<M::Edge>)
+where M: Manager<Terminal = ZBDDTerminal> + HasApplyCache<M, ZBDDOp> + HasZBDDCache<M::Edge>, M::InnerNode: HasLevel,
+//@spec
+    requires edge_ok::<M::Edge>(), zcache_ok(manager), ok(f.view(), manager.num_levels_spec()), ok(g.view(), manager.num_levels_spec()), ok(h.view(), manager.num_levels_spec()),
+    ensures res is Ok ==> ok(res->Ok_0.view(), manager.num_levels_spec())
+        && forall|env: Env| #[trigger] bsem(res->Ok_0.view(), manager.num_levels_spec(), env)
+            == (if bsem(f.view(), manager.num_levels_spec(), env) { bsem(g.view(), manager.num_levels_spec(), env) } else { bsem(h.view(), manager.num_levels_spec(), env) }),
+//@end
+} // mod apply_rec_w
+pub mod apply_rec_r {
+use super::*;
+use super::apply_rec::*;
+broadcast use {leaf_lemmas, upd_lemmas, restrict_lemmas};
+// nested fn with a `for` loop over a reversed range (no loop invariants can be supplied): ASSUMED contract
+//@fn file=crates/oxidd-rules-zbdd/src/apply_rec.rs path=fn:restrict/fn:restrict_base rename=restrict__restrict_base mode=stub
+//@spec
+    requires edge_ok::<M::Edge>(), zcache_ok(manager), ok(vars.view(), manager.num_levels_spec()), is_cube(vars.view()),
+        (level as int) <= top(vars.view()), (level as int) <= manager.num_levels_spec() <= u32::MAX,
+    ensures res is Ok ==> restrict_post(bb(), vars.view(), level as int, manager.num_levels_spec(), res->Ok_0.view()),
+//@end
+//@fn file=crates/oxidd-rules-zbdd/src/apply_rec.rs path=fn:restrict hoist=restrict_base>restrict__restrict_base nodecr expect=R5:1 props=C04,C06 vis=pub(crate)
+//@spec
+    requires edge_ok::<M::Edge>(), zcache_ok(manager), ok(f.view(), manager.num_levels_spec()), ok(vars.view(), manager.num_levels_spec()), is_cube(vars.view()),
+        (level as int) <= top(f.view()), (level as int) <= top(vars.view()), (level as int) <= manager.num_levels_spec() <= u32::MAX,
+    ensures res is Ok ==> restrict_post(f.view(), vars.view(), level as int, manager.num_levels_spec(), res->Ok_0.view()),
+//@end
+//@fn file=crates/oxidd-rules-zbdd/src/apply_rec.rs path=impl:BooleanFunction~for~ZBDDFunction<F>/fn:restrict_edge props=C04
+//@header
+fn restrict_edge<M>(manager: &M, root: &M::Edge, vars: &M::Edge) -> (res: AllocResult<M::Edge>)
+where M: Manager<Terminal = ZBDDTerminal> + HasApplyCache<M, ZBDDOp> + HasZBDDCache<M::Edge>, M::InnerNode: HasLevel,
+//@spec
+    requires edge_ok::<M::Edge>(), zcache_ok(manager), ok(root.view(), manager.num_levels_spec()), ok(vars.view(), manager.num_levels_spec()), is_cube(vars.view()),
+        0 <= manager.num_levels_spec() <= u32::MAX,
+    ensures res is Ok ==> ok(res->Ok_0.view(), manager.num_levels_spec())
+        && forall|env: Env| #[trigger] bsem(res->Ok_0.view(), manager.num_levels_spec(), env) == bsem(root.view(), manager.num_levels_spec(), cube_env(vars.view(), env)),
+//@end
+} // mod apply_rec_r
+pub mod apply_rec_p {
+use super::*;
+broadcast use {leaf_lemmas, pick_lemmas};
+//@fn file=crates/oxidd-rules-zbdd/src/apply_rec.rs path=impl:BooleanFunction~for~ZBDDFunction<F>/fn:pick_cube_dd_edge/fn:inner rename=pick_cube_dd_edge__inner props=C13
+//@spec
+    requires edge_ok::<M::Edge>(), ok(edge.view(), manager.num_levels_spec()),
+        // the choice function may be consulted only with a node whose value is not forced (lo-child satisfiable; the hi-child always is)
+        // and on which the function depends (hi != lo), and with that node's level
+        forall|mm: &M, e2: &M::Edge, l: LevelNo| (e2.view() matches Tree::Inner(k, a, b) && k == l && *b != ee() && *a != *b) ==> #[trigger] choice.requires((mm, e2, l)),
+    ensures res is Ok ==> zpick_ok(edge.view(), res->Ok_0.view()) && ok(res->Ok_0.view(), manager.num_levels_spec()),
+    decreases edge.view(),
+//@end
+//@fn file=crates/oxidd-rules-zbdd/src/apply_rec.rs path=impl:BooleanFunction~for~ZBDDFunction<F>/fn:pick_cube_dd_set_edge/fn:set_pop rename=pick_cube_dd_set_edge__set_pop ret=r props=C13
+//@spec
+    requires wf(edge.view()),
+    ensures r.0.view() == zpopped(edge.view(), until as int),
+        match r.1 { Some(node) => r.0.view() == mk(until, node.then_spec(), node.else_spec()) && node.level_spec() == until, None => top(r.0.view()) != until as int || r.0.view() is Leaf },
+    decreases edge.view(),
+//@end
+//@fn file=crates/oxidd-rules-zbdd/src/apply_rec.rs path=impl:BooleanFunction~for~ZBDDFunction<F>/fn:pick_cube_dd_set_edge/fn:inner rename=pick_cube_dd_set_edge__inner subst=set_pop>pick_cube_dd_set_edge__set_pop props=C13
+//@spec
+    requires edge_ok::<M::Edge>(), ok(edge.view(), manager.num_levels_spec()), ok(literal_set.view(), manager.num_levels_spec()),
+    ensures res is Ok ==> zpick_set_ok(edge.view(), literal_set.view(), res->Ok_0.view()) && ok(res->Ok_0.view(), manager.num_levels_spec()),
+    decreases edge.view(),
+//@end
+} // mod apply_rec_p
+pub mod apply_rec_e {
+use super::*;
+broadcast use {leaf_lemmas, eval_lemmas};
+//@fn file=crates/oxidd-rules-zbdd/src/apply_rec.rs path=impl:BooleanFunction~for~ZBDDFunction<F>/fn:eval_edge/fn:inner rename=eval_edge__inner ret=r props=C02
+//@spec
+    requires wf(edge.view()), eval_pre(edge.view(), values.bits@, ones as int),
+    ensures r == evalp(edge.view(), values.bits@, ones as int),
+        // `ones` = number of variables set to true, one bit per level: the node-by-node interpretation of the handle
+        (ones as int == cnt(values.bits@, 0) && values.bits@.len() <= manager.num_levels_spec())
+            ==> r == bsem(edge.view(), manager.num_levels_spec(), sof(values.bits@)),
+        ones as int == cnt(values.bits@, 0) ==> r == mem(edge.view(), sof(values.bits@)),
+    decreases edge.view(),
+//@end
+} // mod apply_rec_e
 
 } // mod rules
 } // verus!
